@@ -366,7 +366,10 @@ class Decoder(wiring.Component):
                     m.d.comb += sub_bus.bte.eq(getattr(self.bus, "bte", BurstTypeExt.LINEAR))
 
                 granularity_bits = exact_log2(self.bus.data_width // self.bus.granularity)
-                with m.Case(sub_pat[:-granularity_bits if granularity_bits > 0 else None]):
+                sub_pat = sub_pat[:-granularity_bits if granularity_bits > 0 else None]
+                # The memory map always has at least one address bit, even if the bus has none.
+                sub_pat = sub_pat[len(sub_pat) - len(self.bus.adr):]
+                with m.Case(sub_pat):
                     m.d.comb += [
                         sub_bus.cyc.eq(self.bus.cyc),
                         self.bus.dat_r.eq(sub_bus.dat_r),
